@@ -236,6 +236,8 @@ def reconcile_rule(ctx, F):
     # the iterated collection derives from keys(a) and keys(b)
     nexts = fl.calls_to('std::iter::Iterator::next')
     rp = fl.calls_to('reconcile::reconcile_path')
+    if not rp and chain_form(ctx, F, b, fl, a_i, b_i):
+        return
     if not rp or not nexts:
         ctx.missing('C18.R4', 'reconcile loop / reconcile_path call')
     it_o = set()
@@ -340,6 +342,127 @@ def reconcile_rule(ctx, F):
     ded = fl.calls(lambda c: c.endswith('::dedup'))
     ctx.check(bool(srt) and bool(ded), 'C18.R4', 'reconcile:sorted-dedup', 'paths sorted and deduplicated before the loop',
               'reconcile no longer sorts+dedups the union of paths (duplicate decisions for paths on both sides)', loc(b, b.lo))
+
+
+PASS = ('std::iter::Iterator::chain', 'std::iter::Iterator::collect', 'std::iter::IntoIterator::into_iter',
+        'std::iter::Iterator::cloned', 'std::iter::Iterator::copied', 'std::iter::Iterator::next')
+
+
+def chain_form(ctx, F, b, fl, a_i, b_i):
+    """`paths.into_iter().filter_map(|p| ..reconcile_path(a.get(p), b.get(p), z)..).collect()`: the closure body is the loop body.
+    Same obligations (same keys) as the loop form.  -> False when the shape is not this one."""
+    cfg = fl.cfg
+    site = None
+    for qb, qt in fl.calls(lambda c: c.split('::')[-1] == 'filter_map'):
+        for o in fl.origins(qt['args'][1]):
+            cb_ = F.body(o.key) if o.kind == 'agg' else None
+            if cb_ is not None and flow_of(cb_).calls_to('reconcile::reconcile_path'):
+                site = (qb, qt, o, cb_)
+    if site is None:
+        return False
+    qb, qt, clo, cb_ = site
+    cfl = flow_of(cb_)
+    ccfg = cfl.cfg
+    # captured variable i of the closure  ->  parameters of reconcile it refers to
+    up = {}
+    for st in b.blocks[clo.bb]['stmts']:
+        rv = st['rv']
+        if rv['k'] == 'agg' and rv.get('def') == clo.key:
+            for i, op_ in enumerate(rv['ops']):
+                up[i] = {x.key for x in fl.origins(op_) if x.kind == 'param'}
+    restricting = []
+
+    def deep(os_, depth=0, stop=None):
+        out = set()
+        for o in os_:
+            if o.kind == 'call' and o.bb is not None and depth < 8:
+                t = b.blocks[o.bb]['term']
+                if stop is not None and o.bb == stop:
+                    out.add('site')
+                elif o.key.endswith('::keys'):
+                    for x in fl.origins(t['args'][0]):
+                        if x.kind == 'param':
+                            out.add(x.key)
+                elif o.key in PASS:
+                    out |= deep(fl.origins(t['args'][0]), depth + 1, stop) | (deep(fl.origins(t['args'][1]), depth + 1, stop) if o.key.endswith('::chain') else set())
+                else:
+                    restricting.append(o.key)
+        return out
+    srcs = deep(fl.origins(qt['args'][0], mut_calls=False))
+    ret_src = set()
+    ret_src |= deep(fl.origins({'k': 'copy', 'p': {'l': 0, 'proj': []}}), stop=qb)
+    ctx.check(srcs == {a_i, b_i} and ret_src == {'site'} and not restricting, 'C18.R4', 'reconcile:union', 'the plan is collected from a pass over keys(a) U keys(b)',
+              'reconcile does not decide the full union of both sides\' paths (key sources: params %s; result from: %s; restricting adaptors: %s)' % (
+                  sorted(map(str, srcs)), sorted(map(str, ret_src)), sorted(set(restricting))), loc(b, b.lo))
+    rp = cfl.calls_to('reconcile::reconcile_path')
+    pvar = lambda os_: bool(os_) and all(x.kind == 'param' and x.key == 2 for x in os_)
+    for rb_, ct in rp:
+        good, why = True, []
+        for i, side in ((0, a_i), (1, b_i)):
+            os_ = cfl.origins(ct['args'][i])
+            gets = [o for o in os_ if o.kind == 'call' and o.key.endswith('::get')]
+            if len(gets) != len(os_) or not gets:
+                good = False
+                why.append('arg %d is not a map lookup' % i)
+                continue
+            for g in gets:
+                m = call_arg_origins(cfl, g.bb, 0)
+                k = call_arg_origins(cfl, g.bb, 1)
+                if not all(x.kind == 'upvar' and up.get(int(x.key)) == {side} for x in m) or not m:
+                    good = False
+                    why.append('arg %d looked up in the wrong map' % i)
+                if not pvar(k):
+                    good = False
+                    why.append('lookup key is not the closure\'s path')
+        ctx.check(good, 'C18.R4', 'reconcile:lookups', 'reconcile_path(a.get(p), b.get(p), z) with the closure\'s path p',
+                  'reconcile calls reconcile_path with wrong operands: %s' % '; '.join(why), term_loc(cb_, rb_))
+        # None exactly on Noop
+        noop_e, other_e = set(), set()
+        oc = cfl.outcomes(rb_)
+        if 'Noop' in oc:
+            noop_e = set(oc['Noop'])
+            for k_, es in oc.items():
+                if k_ != 'Noop':
+                    other_e |= set(es)
+        for eb, et in cfl.calls_to('std::cmp::PartialEq::ne', 'std::cmp::PartialEq::eq'):
+            o0, o1 = cfl.origins(et['args'][0]), cfl.origins(et['args'][1])
+            is_act = lambda os_: bool(os_) and all(o.kind == 'call' and o.key == 'reconcile::reconcile_path' for o in os_)
+            is_noop = lambda os_: bool(os_) and all(o.kind == 'agg' and o.key == 'reconcile::Action::Noop' for o in os_)
+            if (is_act(o0) and is_noop(o1)) or (is_act(o1) and is_noop(o0)):
+                eq, ne = eq_edges(cfl, eb)
+                noop_e, other_e = set(eq), set(ne)
+        nones, somes = [], []
+        for bi in ccfg.reachable():
+            for st in cb_.blocks[bi]['stmts']:
+                if st['dst']['l'] == 0 and not st['dst']['proj'] and st['rv']['k'] == 'agg':
+                    (nones if st['rv'].get('vname') == 'None' else somes).append((bi, st))
+        from_noop = set()
+        for (s_, t_, lab) in noop_e:
+            from_noop |= ccfg.reach(t_)
+        from_other = set()
+        for (s_, t_, lab) in other_e - noop_e:
+            from_other |= ccfg.reach(t_)
+        cmp_ok = bool(noop_e) and bool(nones) and bool(somes) and all(ccfg.edges_guard(noop_e, bi) for bi, _ in nones) and \
+            not any(bi in from_noop for bi, _ in somes) and not any(bi in from_other for bi, _ in nones)
+        ctx.check(cmp_ok, 'C18.R4', 'reconcile:push-iff-non-noop', 'the closure yields Some((p, act)) exactly on act != Noop',
+                  'reconcile does not keep exactly the non-Noop actions', term_loc(cb_, rb_))
+        for bi, st in somes:
+            os_ = cfl.origins(st['rv']['ops'][0])
+            has_act = any(o.kind == 'call' and o.key == 'reconcile::reconcile_path' for o in os_)
+            has_p = any(o.kind == 'param' and o.key == 2 for o in os_) or any(
+                o.kind == 'call' and o.key.endswith('::clone') and pvar(call_arg_origins(cfl, o.bb, 0)) for o in os_)
+            ctx.check(has_act and has_p, 'C18.R4', 'reconcile:pushed-pair', '(p.clone(), act)',
+                      'the kept pair is not (path, decided action)', loc(cb_, st.get('line', cb_.lo)))
+    rp_blocks = [x for x, _ in rp]
+    skipped = ccfg.reach(0, cut_blocks=rp_blocks) & set(ccfg.exits()) if 0 not in rp_blocks else set()
+    ctx.check(not skipped, 'C18.R4', 'reconcile:every-path-decided', 'each path of the union reaches reconcile_path before the closure returns',
+              'reconcile can drop or keep a path without asking reconcile_path about it: a path is dropped from the plan by something other than the documented table',
+              loc(cb_, cb_.lo))
+    srt = [x for x, _ in fl.calls(lambda c: 'sort' in c.split('::')[-1])]
+    ded = [x for x, _ in fl.calls(lambda c: c.endswith('::dedup'))]
+    ctx.check(bool(srt) and bool(ded), 'C18.R4', 'reconcile:sorted-dedup', 'paths sorted and deduplicated before the pass',
+              'reconcile no longer sorts+dedups the union of paths (duplicate decisions for paths on both sides)', loc(b, b.lo))
+    return True
 
 
 # ---------------------------------------------------------------- Lean mirror (cross-check only)
